@@ -361,6 +361,8 @@ def _param_drivers(fam, rg, time_obj):
         if rg["_f32"]:
             def dec(raws):
                 a = llanim.Animation.from_bytes(_anim_bytes(hi, raws))
+                if _KEEP:
+                    _ALIVE.append(a)
                 j = a.joints["mPelvis"]
                 r, p = [k.time for k in j.rot_keyframes], [k.time for k in j.pos_keyframes]
                 if len(r) != len(raws) or r != p or a.duration != hi:
@@ -380,11 +382,19 @@ def _param_drivers(fam, rg, time_obj):
             out.append(("Animation.from_bytes/to_bytes", dec, enc))
     elif fam["kind"] == "qfloat":
         prim = {(0, 65535): se.U16, (0, 255): se.U8, (-32768, 32767): se.S16}[(fam["rawMin"], fam["rawMax"])]
-        q = se.QuantizedFloat(prim, lo, hi)
+        q = _DRV.get((fam["id"], rg["id"])) if _KEEP else None
+        if q is None:
+            q = se.QuantizedFloat(prim, lo, hi)
+            if _KEEP:
+                _DRV[(fam["id"], rg["id"])] = q
         out.append(("QuantizedFloat(prim, lo, hi)", lambda raws: [q.decode(r, None) for r in raws],
                     lambda xs: [q.encode(x, None) for x in xs]))
     else:
-        q = se.QuantizedNumPyArray(se.NumPyArray(se.BytesGreedy(), np.dtype("<u2"), 1), lo, hi)
+        q = _DRV.get((fam["id"], rg["id"])) if _KEEP else None
+        if q is None:
+            q = se.QuantizedNumPyArray(se.NumPyArray(se.BytesGreedy(), np.dtype("<u2"), 1), lo, hi)
+            if _KEEP:
+                _DRV[(fam["id"], rg["id"])] = q
         out.append(("QuantizedNumPyArray(lo, hi)",
                     lambda raws: [float(v) for v in np.asarray(q.decode(np.array(raws, dtype=np.dtype("<u2")), None)).reshape(-1)],
                     lambda xs: [int(v) for v in np.asarray(q.encode(np.array(xs, dtype=np.float64), None)).reshape(-1)]))
@@ -392,6 +402,9 @@ def _param_drivers(fam, rg, time_obj):
 
 
 _PJOBS = None
+_KEEP = False      # history runs: constructed instances and parsed animations stay alive for the whole process
+_DRV = {}
+_ALIVE = []
 
 
 def _param_job(ji):
@@ -442,9 +455,9 @@ def _param_job(ji):
                 prev = x
             if isinstance(y, bool) or int(y) != y or int(y) != row["re"]:
                 bad.append(("roundtrip", path, raw, {"decoded": x, "re_encoded": y, "spec": row["re"]}))
-        # ends as literals, and the NEAREST probes
+        # ends as literals, and the NEAREST probes (stand-alone runs only: history runs look for remembered state)
         probes = []
-        for row in rows:
+        for row in ([] if _KEEP else rows):
             if row["deg"]:
                 if row["raw"] == raws[0]:
                     probes.append((row, rg["_lo"], [row["re"]], "degenerate-encode"))
@@ -462,6 +475,76 @@ def _param_job(ji):
             if isinstance(y, bool) or int(y) != y or int(y) not in ok:
                 bad.append((kind, path, row["raw"], {"value": v, "encoded": y, "spec_allows": ok}))
     return ji, n, bad
+
+
+_HIST = None
+
+
+def _history_job(si):
+    """One schedule in one process: every fixed instance and every (family, range) pair, one after the other, through
+    the same long-lived objects; each step is compared with the same TLC rows as when it runs alone."""
+    global _JOBS, _KEEP
+    name, steps = _HIST["scheds"][si]
+    _JOBS = _HIST["sjobs"]
+    _KEEP = True
+    out, total, prev = [], 0, None
+    for pos, st in enumerate(steps):
+        if st["k"] == "inst":
+            j = _HIST["sjob_of"][st["a"]]
+            _, n, bad = _replay_job(j)
+            who = ("inst", _JOBS[j][0]["id"])
+            bad = [(k, "Adapter.decode/encode", raw, d) for k, raw, d in bad]
+        else:
+            j = _HIST["pjob_of"][(st["a"], st["b"])]
+            _, n, bad = _param_job(j)
+            who = ("param", _PJOBS[j][0]["id"], _PJOBS[j][1]["id"])
+        total += n
+        for b in bad[:40]:
+            out.append((pos, who, prev) + tuple(b))
+        prev = who
+    return si, total, out
+
+
+def _schedules(chk, insts, ranges, ptables, tables):
+    """Participants and the orders in which one process runs them."""
+    parts = []
+    sjobs, sjob_of = [], {}
+    for n, (rec, h) in enumerate(insts):
+        rows = tables.get(rec["id"])
+        if rec["kind"] == "time" or not rows:
+            continue
+        lo, hi = rec["rawMin"], rec["rawMax"]
+        mid = lo + (hi - lo) // 2
+        want = {lo, lo + 1, lo + 2, lo + 3, mid - 2, mid - 1, mid, mid + 1, mid + 2, hi - 2, hi - 1, hi}
+        want |= {lo + (j * (hi - lo)) // 13 for j in range(1, 13)} | {r for r in (127, 128, 129, 253, 254, 255, 256) if lo <= r <= hi}
+        sub = [r for r in rows if r["raw"] in want]
+        sjob_of[n + 1] = len(sjobs)
+        sjobs.append((rec, h, sub, None))
+        parts.append((float(h["upper"]), float(h["lower"]), hi - lo,
+                      {"k": "inst", "a": n + 1, "b": 0, "w": hi - lo, "r": [_tok(float(h["lower"])), _tok(float(h["upper"]))]}))
+    fam_idx = {f["id"]: i + 1 for i, f in enumerate(PARAM_FAMS)}
+    rng_idx = {r["id"]: i + 1 for i, r in enumerate(ranges)}
+    pjob_of = {}
+    for j, (fam, rg, rows, _) in enumerate(_PJOBS):
+        pjob_of[(fam_idx[fam["id"]], rng_idx[rg["id"]])] = j
+        w = fam["rawMax"] - fam["rawMin"]
+        parts.append((rg["_hi"], rg["_lo"], w, {"k": "param", "a": fam_idx[fam["id"]], "b": rng_idx[rg["id"]], "w": w,
+                                                  "r": [rg["lo"], rg["hi"]]}))
+    parts.sort(key=lambda p: (p[0], p[1], p[2], p[3]["k"], p[3]["a"], p[3]["b"]))
+    asc = [p[3] for p in parts]
+    desc = list(reversed(asc))
+    inter = []
+    i, j = 0, len(asc) - 1
+    while i <= j:
+        inter.append(asc[i])
+        if i != j:
+            inter.append(asc[j])
+        i, j = i + 1, j - 1
+    shuf = list(asc)
+    chk.rng.shuffle(shuf)
+    scheds = [("ascending (narrow width first)", asc), ("descending (wide width first)", desc),
+              ("interleaved from both ends", inter), ("shuffled", shuf)]
+    return scheds, sjobs, sjob_of, pjob_of
 
 
 _CJOBS = None
@@ -637,6 +720,40 @@ def _cex(res):
 PARAM_INVS = ["PTypeOK", "PRoundTrip", "PMonotone", "PEnds", "PZero", "PNearest"]
 
 
+HIST_INVS = ["HTypeOK", "MemEmpty"]
+
+
+def _history_model(chk: Check, insts, ranges, scheds):
+    """TLC walks the schedules (MemEmpty, HTypeOK) and prints one record per step."""
+    d = os.path.join(chk.scratch, "qh")
+    os.makedirs(d, exist_ok=True)
+    files = {"QUANT_INSTS": [r for r, _ in insts], "QUANT_COMPS": [], "QUANT_FAMS": PARAM_FAMS,
+             "QUANT_RANGES": [{k: v for k, v in r.items() if not k.startswith("_")} for r in ranges],
+             "QUANT_SCHEDS": [{"id": name, "steps": steps} for name, steps in scheds]}
+    env = {}
+    for k, v in files.items():
+        env[k] = os.path.join(d, k + ".json")
+        with open(env[k], "w") as f:
+            json.dump(v, f)
+    cfg = os.path.join(d, "Quant_MBT.cfg")
+    with open(cfg, "w") as f:
+        f.write("SPECIFICATION MHSpec\n%s" % "".join("INVARIANT %s\n" % i for i in HIST_INVS))
+    res = run_tlc(os.path.join(SPECS, "Quant_MBT.tla"), cfg, workers=1, scratch=d, env=env, heap="3g")
+    chk.add_tlc(res, "Quant history: %d schedules" % len(scheds))
+    if not res.ok:
+        chk.violation("model: %s violated by a schedule" % (",".join(res.violated) or "error"),
+                      {"kind": "model", "violated": res.violated, "machine": "history"}, {"tlc": _cex(res)})
+        return {}
+    recs = {}
+    for line in res.out.splitlines():
+        if line.startswith('"{'):
+            r = json.loads(json.loads(line))["hstep"]
+            recs[(r["s"], r["pos"])] = r
+    if len(recs) != sum(len(st) for _, st in scheds):
+        raise MachineryError("history export has %d steps, expected %d" % (len(recs), sum(len(st) for _, st in scheds)))
+    return recs
+
+
 def _tables(chk: Check, insts, shards: int, comps=(), ranges=()):
     """Run Quant_MBT (invariants on) over all instances; -> {id: rows in raw order}, {composite id: rows}."""
     small = [r for r, _ in insts if r["rawMax"] - r["rawMin"] < 256]
@@ -646,8 +763,10 @@ def _tables(chk: Check, insts, shards: int, comps=(), ranges=()):
     groups = [small] + [g for g in common.chunked(big, shards) if g]
     if comps:
         groups.append("composites")
-    if ranges:
-        groups.append("parametric")
+    PSHARDS = 3
+    rchunks = [c for c in common.chunked(list(ranges), PSHARDS) if c] if ranges else []
+    for rc in rchunks:
+        groups.append(("parametric", rc))
     import concurrent.futures as cf
 
     def one(arg):
@@ -655,11 +774,14 @@ def _tables(chk: Check, insts, shards: int, comps=(), ranges=()):
         d = os.path.join(chk.scratch, "q%d" % no)
         os.makedirs(d, exist_ok=True)
         composite = recs == "composites"
-        param = recs == "parametric"
+        param = isinstance(recs, tuple) and recs[0] == "parametric"
+        my_ranges = recs[1] if param else []
+        with open(os.path.join(d, "scheds.json"), "w") as f:
+            json.dump([], f)
         with open(os.path.join(d, "fams.json"), "w") as f:
             json.dump(PARAM_FAMS if param else [], f)
         with open(os.path.join(d, "ranges.json"), "w") as f:
-            json.dump([{k: v for k, v in r.items() if not k.startswith("_")} for r in ranges] if param else [], f)
+            json.dump([{k: v for k, v in r.items() if not k.startswith("_")} for r in my_ranges], f)
         with open(os.path.join(d, "insts.json"), "w") as f:
             json.dump([r for r, _ in insts] if composite or param else recs, f)
         with open(os.path.join(d, "comps.json"), "w") as f:
@@ -674,21 +796,22 @@ def _tables(chk: Check, insts, shards: int, comps=(), ranges=()):
                 f.write("SPECIFICATION MSpec\n%sPROPERTY MonotoneStep\n" % "".join("INVARIANT %s\n" % i for i in INVS))
         return run_tlc(os.path.join(SPECS, "Quant_MBT.tla"), cfg, workers=1, scratch=d,
                        env={"QUANT_INSTS": os.path.join(d, "insts.json"), "QUANT_COMPS": os.path.join(d, "comps.json"),
-                            "QUANT_FAMS": os.path.join(d, "fams.json"), "QUANT_RANGES": os.path.join(d, "ranges.json")}, heap="3g")
+                            "QUANT_FAMS": os.path.join(d, "fams.json"), "QUANT_RANGES": os.path.join(d, "ranges.json"),
+                            "QUANT_SCHEDS": os.path.join(d, "scheds.json")}, heap="3g")
     with cf.ThreadPoolExecutor(max_workers=len(groups)) as ex:
         results = list(ex.map(one, enumerate(groups)))
     tables = {}
     ctables = {}
     ptables = {}
-    if ranges:
+    for rc in reversed(rchunks):
         groups.pop()
         res = results.pop()
-        chk.add_tlc(res, "Quant %d families x %d ranges" % (len(PARAM_FAMS), len(ranges)))
+        chk.add_tlc(res, "Quant %d families x %d ranges" % (len(PARAM_FAMS), len(rc)))
         if not res.ok:
             cex = _cex(res)
             mf, mr = re.findall(r"/\\ pf = (\d+)", cex), re.findall(r"/\\ pr = (\d+)", cex)
             fid = PARAM_FAMS[int(mf[-1]) - 1]["id"] if mf and 0 < int(mf[-1]) <= len(PARAM_FAMS) else "?"
-            rid = ranges[int(mr[-1]) - 1]["id"] if mr and 0 < int(mr[-1]) <= len(ranges) else "?"
+            rid = rc[int(mr[-1]) - 1]["id"] if mr and 0 < int(mr[-1]) <= len(rc) else "?"
             chk.violation("model: %s violated for family %s on range %s" % (",".join(res.violated) or "error", fid, rid),
                           {"kind": "model", "violated": res.violated, "family": fid, "range": rid}, {"tlc": cex})
         else:
@@ -696,11 +819,12 @@ def _tables(chk: Check, insts, shards: int, comps=(), ranges=()):
                 if line.startswith('"{'):
                     row = json.loads(json.loads(line))["prow"]
                     ptables.setdefault((row["f"], row["rg"]), []).append(row)
-            for rows in ptables.values():
-                rows.sort(key=lambda r: r["raw"])
-            want = sum(1 for f in PARAM_FAMS for r in ranges if r["lo0"] or not f["lo0only"])
-            if len(ptables) != want:
-                raise MachineryError("parametric table has %d (family, range) pairs, expected %d" % (len(ptables), want))
+    if ranges and not any(isinstance(v, dict) and v.get("features", {}).get("kind") == "model" for v in chk.violations):
+        for rows in ptables.values():
+            rows.sort(key=lambda r: r["raw"])
+        want = sum(1 for f in PARAM_FAMS for r in ranges if r["lo0"] or not f["lo0only"])
+        if len(ptables) != want:
+            raise MachineryError("parametric table has %d (family, range) pairs, expected %d" % (len(ptables), want))
     if comps:
         groups.pop()
         res = results.pop()
@@ -775,6 +899,9 @@ def run(chk: Check):
         "the upper end of a declared range is constrained only when it lies on the raw grid (it does not for PackedTERotation and FixedPoint)",
         "parametric ranges: finite bounds, |bound| <= 1e150, non-degenerate ranges at least 2^-149 wide; a degenerate range (lo = hi) only has to "
         "decode every raw to lo and encode lo to the lowest raw; NEAREST probes are a quarter step (one admissible raw) and a half step (two) off the grid",
+        "history: a schedule runs every fixed instance (on a lattice of raws) and every (family, range) pair in one process through the same "
+        "long-lived objects (the llanim QuantizedTime singleton with a fresh parse context per animation, parsed animations kept alive; "
+        "constructed instances kept alive); the expected rows are those of the stand-alone runs",
         "composites (quantised vectors, packed quaternions, vector lists) are driven through their byte form with ctx None, little-endian; "
         "every raw tuple must come back unchanged, also for 3-component packed quaternions whose decoded X/Y/Z is longer than 1 (W is not on the wire)",
     ]
@@ -866,6 +993,37 @@ def run(chk: Check):
                           {"lo": rg["_lo"], "hi": rg["_hi"], "observed": detail})
     total_rows += prows
     chk.cov["parametric_rows_replayed"] = prows
+    # history: the same rows again, but everything in ONE process per schedule, through the same long-lived objects
+    global _HIST
+    if _PJOBS and not any(v.get("features", {}).get("kind") == "model" for v in chk.violations if isinstance(v, dict)):
+        scheds, sjobs, sjob_of, pjob_of = _schedules(chk, insts, ranges, ptables, tables)
+        hrecs = _history_model(chk, insts, ranges, scheds)
+        if hrecs:
+            _HIST = {"scheds": scheds, "sjobs": sjobs, "sjob_of": sjob_of, "pjob_of": pjob_of}
+            hsteps = 0
+            for si, n, bad in common.parallel_map(_history_job, list(range(len(scheds)))):
+                name, steps = scheds[si]
+                chk.count(n)
+                hsteps += len(steps)
+                for pos in range(0, len(steps), 5):
+                    chk.nontrivial(("history", name, pos))
+                seen = {}
+                for pos, who, prev, kind, path, raw, detail in bad:
+                    key = (who, kind, path)
+                    seen[key] = seen.get(key, 0) + 1
+                    if seen[key] > 2 or sum(1 for k in seen if k[0] == who) > 6:
+                        continue
+                    feat = {"kind": kind, "raw": raw, "path": path, "schedule": name,
+                            "after": " ".join(prev[1:]) if prev else None}
+                    if who[0] == "inst":
+                        feat["inst"] = who[1]
+                    else:
+                        feat["family"], feat["range"] = who[1], who[2]
+                    chk.violation("%s, step %d of schedule '%s' (after %s): %s at raw %s via %s" % (
+                        " ".join(who[1:]), pos + 1, name, " ".join(prev[1:]) if prev else "nothing", kind, raw, path),
+                        feat, {"observed": detail, "spec_step": hrecs.get((name, pos + 1))})
+            chk.cov["history_steps_replayed"] = hsteps
+            chk.cov["traces_validated_against_impl"] += hsteps
     chk.cov["traces_validated_against_impl"] += total_rows
     chk.cov["rows_replayed"] = total_rows
     chk.cov["durations"] = durs
